@@ -121,6 +121,17 @@ def special_graphs():
         yield (f"star-out-{pos}", pos, star)
         full = {a: (P[a], [b for b in range(4) if b != a]) for a in range(4)}
         yield (f"complete4-{pos}", pos, full)
+        # a diamond: two detours 1->2->4 and 1->3->4 that re-converge, so that inside a non-emitting run the same lattice
+        # entry is reached from two predecessors and an existing entry is replaced by a better candidate
+        # (GENERIC: detours of different length; GRID: exactly symmetric detours, i.e. exact ties)
+        if pos == "GENERIC":
+            D = [(0.03, 0.01), (0.02, 1.04), (0.63, 1.81), (-0.38, 1.77), (0.05, 2.58), (0.01, 3.61), (0.04, 4.63)]
+        else:
+            D = [(0.0, 0.0), (0.0, 1.0), (0.5, 1.75), (-0.5, 1.75), (0.0, 2.5), (0.0, 3.5), (0.0, 4.5)]
+        dia = {0: (D[0], [1]), 1: (D[1], [2, 3]), 2: (D[2], [4]), 3: (D[3], [4]), 4: (D[4], [5]), 5: (D[5], [6]), 6: (D[6], [])}
+        yield (f"diamond7-1way-{pos}", pos, dia)
+        dia2 = {0: (D[0], [1]), 1: (D[1], [0, 2, 3]), 2: (D[2], [1, 4]), 3: (D[3], [1, 4]), 4: (D[4], [2, 3, 5]), 5: (D[5], [4, 6]), 6: (D[6], [5])}
+        yield (f"diamond7-2way-{pos}", pos, dia2)
 
 
 def build_graph(gs, labels="int", selfnbr=False):
